@@ -230,6 +230,7 @@ func (pmt *Payment) Normalize(normalizers tax.Normalizers) {
 	tax.Normalize(normalizers, pmt.Tax)
 	tax.Normalize(normalizers, pmt.Supplier)
 	tax.Normalize(normalizers, pmt.Customer)
+	tax.Normalize(normalizers, pmt.Payee)
 	tax.Normalize(normalizers, pmt.Preceding)
 	tax.Normalize(normalizers, pmt.Lines)
 	tax.Normalize(normalizers, pmt.Ordering)
